@@ -64,6 +64,11 @@ impl WorkerCtx {
     }
 }
 
+static IN_WORKER: std::sync::atomic::AtomicBool = std::sync::atomic::AtomicBool::new(false);
+pub fn in_worker() -> bool {
+    IN_WORKER.load(std::sync::atomic::Ordering::Relaxed)
+}
+
 /// Worker side entry: parse the common argument prefix and hand over to `f`
 pub fn worker_entry(args: &[String], f: fn(&mut WorkerCtx)) -> i32 {
     // args: <name> <shard> <nshards> <tier> <seed> [extra...]
@@ -82,6 +87,7 @@ pub fn worker_entry(args: &[String], f: fn(&mut WorkerCtx)) -> i32 {
         vios: BTreeMap::new(),
         samples: vec![],
     };
+    IN_WORKER.store(true, std::sync::atomic::Ordering::Relaxed);
     crate::common::par::quiet_panics();
     // from here on this process can write to (and delete from) a private tmpfs only
     crate::engines::sandbox::isolate_filesystem();
